@@ -114,7 +114,14 @@ Proof.
     { intros _. assert (Hu : forall v, In v (skipn (Z.to_nat (narguses (sc_of st t))) (sundeclared (sc_of st t))) -> 1 <= vuses (vget st v)).
       { intros v Hv. apply (I_uses _ _ U). apply (I_valid _ _ _ _ _ I t v Htn). right.
         rewrite <- (firstn_skipn (Z.to_nat (narguses (sc_of st t)))). apply in_app_iff. right. exact Hv. }
-      specialize (Hreuse Hu). destruct (find_reuse st x _ 0) as [[j uv]|]; [|exact Hreuse].
+      assert (Hna : forall v, In v (skipn (Z.to_nat (narguses (sc_of st t))) (sundeclared (sc_of st t))) -> vd st v = 0 -> argp st home v = false).
+      { intros v Hv Hd0.
+        assert (Hin : In v (sundeclared (sc_of st t))).
+        { rewrite <- (firstn_skipn (Z.to_nat (narguses (sc_of st t)))). apply in_app_iff. right. exact Hv. }
+        destruct (I_und _ _ _ _ _ I t v Ht Hin) as (_ & Hh & _). apply (notin_und_args_argp st home t v (Hh Hd0)).
+        intros Hfa. pose proof (I_und_nodup _ _ _ _ _ I t Ht) as Hnd. rewrite (und_split (sc_of st t)) in Hnd.
+        apply (NoDup_app_disj _ _ Hnd v Hfa Hv). }
+      specialize (Hreuse Hu Hna). destruct (find_reuse st x _ 0) as [[j uv]|]; [|exact Hreuse].
       destruct Hreuse as (H1 & _ & H3 & H4 & H5). split; [exact H1|]. split; [|split; assumption].
       rewrite <- nth_error_skipn. replace j with (j - 0)%nat at 1 by lia. exact H3. }
     clear Hreuse.
@@ -154,14 +161,14 @@ Proof.
       assert (F7 : is_root st3 uv) by (apply (is_root_same_shape _ _ _ Hsh); exact Hroot2).
       assert (F8 : vd st3 uv <> 0).
       { unfold vd. destruct Hsh as (_ & _ & Hs). destruct (Hs uv) as (_ & -> & _).
-        unfold lab_root in Hlabroot. destruct (vdecl (vget st2 uv) =? 0) eqn:E0; [discriminate|]. apply Z.eqb_neq. exact E0. }
+        unfold lab_root in Hlabroot. destruct (vdecl (vget st2 uv) =? 0) eqn:E0; [destruct (argp st2 home uv); discriminate|]. apply Z.eqb_neq. exact E0. }
       assert (F9 : home uv = t).
       { destruct (I_decl _ _ _ _ _ I2 t uv) as (_ & _ & Hh2); [rewrite Ens; exact Htn| |exact Hh2].
         unfold st2. rewrite sc_of_sset_same by (rewrite nscopes_vset; exact Htn). cbn [sdeclared set_declared].
         apply in_app_last. right. reflexivity. }
       assert (F10 : vn st3 uv = x).
       { unfold vn. destruct Hsh as (_ & _ & Hs). destruct (Hs uv) as (-> & _).
-        unfold lab_root in Hlabroot. destruct (vdecl (vget st2 uv) =? 0); inversion Hlabroot. reflexivity. }
+        unfold lab_root in Hlabroot. destruct (vdecl (vget st2 uv) =? 0); [destruct (argp st2 home uv); discriminate|]. inversion Hlabroot. reflexivity. }
       assert (F11 : nscopes st3 = nscopes st) by (rewrite (nscopes_same_shape _ _ Hsh); exact Ens).
       assert (F12 : forall q, In q stk -> q <> t -> frame_of st3 home q = frame_of st home q).
       { intros q Hq Hne. rewrite (frame_of_same_shape _ _ _ _ Hsh). apply Hfo; assumption. }
